@@ -246,10 +246,13 @@ def _simplifications(op):
 # ------------------------------------------------------------------ replay (cold interpreters)
 
 
-def replay_history(history: dict, hashseed=777) -> list:
-    """Execute a history with every process brand new.  Returns the violations."""
+def replay_history(history: dict, hashseed=777, hashseed_ref=None) -> list:
+    """Execute a history with every process brand new.  Returns the violations.
+    The hash seeds of the session and of the reference processes are part of the case
+    (a result that depends on PYTHONHASHSEED only shows for particular pairs of seeds)."""
     from sim.zygote import cold_call
 
+    hashseed_ref = hashseed + 1 if hashseed_ref is None else hashseed_ref
     sess = cold_call("sim.c14", "run_session", history, hashseed=hashseed)
     violations = []
     for ev in sess["events"]:
@@ -257,7 +260,7 @@ def replay_history(history: dict, hashseed=777) -> list:
             violations.append({"invariant": "I1", "i": ev["i"], "op": ev["op"], "what": key})
         if ev.get("ref") is None:
             continue
-        ro = cold_call("sim.c14", "run_reference", ev["ref"], hashseed=hashseed + 1)
+        ro = cold_call("sim.c14", "run_reference", ev["ref"], hashseed=hashseed_ref)
         diff = same_outcome(ev["outcome"], ro)
         if diff is not None:
             violations.append({"invariant": "I2", "i": ev["i"], "op": ev["op"], "what": diff, "session": _brief(ev["outcome"], ev), "reference": _brief(ro, ro)})
@@ -266,7 +269,8 @@ def replay_history(history: dict, hashseed=777) -> list:
 
 def replay_file(path: str) -> int:
     data = json.loads(open(path).read())
-    vio = replay_history(data["history"])
+    hs = data.get("hashseeds") or {}
+    vio = replay_history(data["history"], hashseed=hs.get("session", 777), hashseed_ref=hs.get("reference"))
     want = data.get("violation_key")
     hit = [v for v in vio if want is None or vkey(v) == want]
     if hit:
@@ -308,7 +312,8 @@ def run_check(tier: str, seed: int, runs: int | None = None, parallel: int | Non
             rp = f.get("replay")
             if rp:
                 data = json.loads((VERIF / rp).read_text())
-                vio = replay_history(data["history"])
+                hs = data.get("hashseeds") or {}
+                vio = replay_history(data["history"], hashseed=hs.get("session", 777), hashseed_ref=hs.get("reference"))
                 if any(match_known([f], {**vkey(v), "what": v["what"]}) for v in vio):
                     known_lines.append(f"KNOWN-FINDING: property={PROP} {f['what']}")
                 else:
@@ -373,12 +378,12 @@ def run_check(tier: str, seed: int, runs: int | None = None, parallel: int | Non
             # confirm in cold interpreters (three times, identical)
             confirms = []
             for t in range(3):
-                vio = replay_history(small, hashseed=1000 + 17 * t)
+                vio = replay_history(small, hashseed=slot.S.hashseed, hashseed_ref=slot.R.hashseed)
                 confirms.append(sorted(jdump(vkey(x)) for x in vio if vkey(x) == vkey(v2)))
             if not all(confirms) or any(c != confirms[0] for c in confirms):
                 raise HarnessError(f"violation in run {i} does not replay identically in cold interpreters: {v2} / {confirms}")
             tag = f"{i}-{len(new_violation_lines)}"
-            path = write_replay(PROP, seed, tag, {"history": small, "violation": v2, "violation_key": vkey(v2), "original_ops": len(history["ops"]), "minimised_ops": len(small["ops"]), "shrink_candidates": spent, "replay_cmd": f"./check replay replays/{PROP}-{seed}-{tag}.json"})
+            path = write_replay(PROP, seed, tag, {"hashseeds": {"session": slot.S.hashseed, "reference": slot.R.hashseed}, "history": small, "violation": v2, "violation_key": vkey(v2), "original_ops": len(history["ops"]), "minimised_ops": len(small["ops"]), "shrink_candidates": spent, "replay_cmd": f"./check replay replays/{PROP}-{seed}-{tag}.json"})
             new_violation_lines.append(f"VIOLATION property={PROP} replay={path}")
             log(f"  violation: {jdump(v2)}")
             exit_code = EXIT_VIOLATION
